@@ -23,6 +23,8 @@ def dispatch (line : String) : Ans :=
   | "build" :: r => handleBuild r
   | "expect" :: r => handleExpect r
   | "searchfp" :: r => handleSearchFp r
+  | "minimax" :: r => handleMinimax r
+  | "mirrorchk" :: r => handleMirrorChk r
   | "search" :: r => handleSearch r
   | "searchchk" :: r => handleSearchChk r
   | "bot" :: r => handleBot r
